@@ -24,4 +24,10 @@ def match(prop, mismatch):
     return None
 
 
-MATCHERS = {}
+def m_codec_law_delims(f, m):
+    """F03: the codec law fails on the real code AND the specification predicts exactly that (ImplQueryEscape) AND the
+    specification's predicate HasDelims holds for the list (a name/value contains one of % & + =)."""
+    return m.get("what") == "codec-law" and isinstance(m.get("exp"), dict) and m["exp"].get("delims") is True and m["exp"].get("faithful") is False
+
+
+MATCHERS = {"codec_law_delims": m_codec_law_delims}
